@@ -194,6 +194,66 @@ class _Normal(ast.NodeTransformer):
             nd.left, nd.comparators = b, [a]
         return nd
 
+    #: tensor methods that have a function of the same name and meaning in the torch namespace (x.f(a) == torch.f(x, a))
+    METHOD_AS_FUNCTION = frozenset({"abs", "sqrt", "exp", "log", "log2", "log10", "sum", "mean", "prod", "sign", "clamp", "argmin", "argmax", "unsqueeze", "squeeze", "any", "all", "conj", "tanh", "sigmoid", "floor", "ceil", "round", "cumsum", "flatten", "matmul", "logical_not", "logical_and", "logical_or", "logical_xor", "isnan", "isinf", "nonzero", "flip", "reshape", "remainder", "fmod", "bitwise_xor", "bitwise_and", "bitwise_or", "atanh", "arctanh", "angle", "real", "imag", "numel", "square", "neg", "reciprocal", "std", "var", "norm", "amax", "amin", "unbind", "gather", "repeat_interleave", "masked_fill", "index_select", "t", "clone", "detach"})
+    #: of these, the ones whose first argument after the tensor is the axis: f(x, 1) == f(x, dim=1)
+    DIM_SECOND = frozenset({"sum", "mean", "prod", "argmin", "argmax", "any", "all", "cumsum", "unsqueeze", "squeeze", "amax", "amin", "unbind"})
+
+    def visit_Call(self, nd: ast.Call):
+        nd = self.generic_visit(nd)
+        f = nd.func
+        # x.f(args) -> torch.f(x, args) for the tensor methods listed above (the receiver is evaluated first either way)
+        if isinstance(f, ast.Attribute) and f.attr in self.METHOD_AS_FUNCTION - {"real", "imag", "numel", "t", "clone", "detach"} and not (isinstance(f.value, ast.Name) and f.value.id in ("torch", "np", "numpy", "math", "F", "self", "cls")) and not isinstance(f.value, ast.Call) or False:
+            nd = ast.Call(func=ast.Attribute(value=ast.Name(id="torch", ctx=ast.Load()), attr=f.attr, ctx=ast.Load()), args=[f.value] + list(nd.args), keywords=list(nd.keywords))
+            f = nd.func
+        if isinstance(f, ast.Attribute) and isinstance(f.value, ast.Name) and f.value.id == "torch" and f.attr in self.DIM_SECOND and len(nd.args) == 2 and not any(k.arg == "dim" for k in nd.keywords) and not isinstance(nd.args[1], ast.Starred):
+            nd = ast.Call(func=f, args=[nd.args[0]], keywords=[ast.keyword(arg="dim", value=nd.args[1])] + list(nd.keywords))
+        # x.size(i) -> x.shape[i], x.size() -> x.shape, len(x.shape) -> x.dim(), x.ndim -> x.dim()
+        if isinstance(f, ast.Attribute) and f.attr == "size" and not nd.keywords and len(nd.args) <= 1 and not (isinstance(f.value, ast.Name) and f.value.id in ("torch", "np", "numpy")):
+            shp = ast.Attribute(value=f.value, attr="shape", ctx=ast.Load())
+            return shp if not nd.args else ast.Subscript(value=shp, slice=nd.args[0], ctx=ast.Load())
+        if isinstance(f, ast.Name) and f.id == "len" and len(nd.args) == 1 and not nd.keywords and isinstance(nd.args[0], ast.Attribute) and nd.args[0].attr == "shape":
+            return ast.Call(func=ast.Attribute(value=nd.args[0].value, attr="dim", ctx=ast.Load()), args=[], keywords=[])
+        return nd
+
+    def visit_Attribute(self, nd: ast.Attribute):
+        nd = self.generic_visit(nd)
+        if nd.attr == "ndim" and isinstance(nd.ctx, ast.Load):
+            return ast.Call(func=ast.Attribute(value=nd.value, attr="dim", ctx=ast.Load()), args=[], keywords=[])
+        return nd
+
+    def visit_UnaryOp(self, nd: ast.UnaryOp):
+        nd = self.generic_visit(nd)
+        # De Morgan (evaluation order and short-circuiting are the same on both sides): not (a and b) -> not a or not b
+        if isinstance(nd.op, ast.Not) and isinstance(nd.operand, ast.BoolOp):
+            inner = nd.operand
+            return ast.BoolOp(op=ast.Or() if isinstance(inner.op, ast.And) else ast.And(), values=[self.visit_UnaryOp(ast.UnaryOp(op=ast.Not(), operand=v)) for v in inner.values])
+        if isinstance(nd.op, ast.Not) and isinstance(nd.operand, ast.UnaryOp) and isinstance(nd.operand.op, ast.Not) and False:
+            return nd  # `not not x` is bool(x), not x: left alone
+        return nd
+
+    @staticmethod
+    def _leaves(block) -> bool:
+        return bool(block) and (isinstance(block[-1], (ast.Return, ast.Raise, ast.Continue, ast.Break)) or (isinstance(block[-1], ast.If) and bool(block[-1].orelse) and _Normal._leaves(block[-1].body) and _Normal._leaves(block[-1].orelse)))
+
+    def _hoist(self, stmts):
+        """`if c: ...; return A` followed by an else arm: the else arm is the rest of the block (early-return form)"""
+        out = []
+        for st in stmts:
+            out.append(st)
+            if isinstance(st, ast.If) and st.orelse and self._leaves(st.body) and not (len(st.orelse) == 1 and isinstance(st.orelse[0], ast.If) and False):
+                rest, st.orelse = st.orelse, []
+                out.extend(self._hoist(rest))
+        return out
+
+    def generic_visit(self, node):
+        node = super().generic_visit(node)
+        for fld in ("body", "orelse", "finalbody"):
+            blk = getattr(node, fld, None)
+            if isinstance(blk, list) and blk and isinstance(blk[0], ast.stmt):
+                setattr(node, fld, self._hoist(blk))
+        return node
+
     def visit_BinOp(self, nd: ast.BinOp):
         nd = self.generic_visit(nd)
         if isinstance(nd.op, (ast.Mult, ast.BitAnd, ast.BitOr, ast.BitXor)) and not (_has_effect(nd.left) and _has_effect(nd.right)) and _key(nd.right) < _key(nd.left):
